@@ -355,18 +355,28 @@ def _eliminate_returns(stmts, mk):
         if isinstance(st, ast.Try):
             if any(_has_return(x) for x in st.finalbody):
                 raise CannotInline('return in finally')
+            if st.finalbody and rest:
+                raise CannotInline('return inside try/finally that is followed by more statements')
+            # the statements after the try run when the body completes (-> else clause: not covered by the handlers, as before)
+            # or when a handler completes (-> end of that handler)
+            body_returns = any(_has_return(x) for x in st.body)
             b, fb = _eliminate_returns(list(st.body), mk)
-            o, fo = _eliminate_returns(list(st.orelse), mk) if st.orelse else ([], fb)
+            if body_returns and fb and (rest or st.orelse):
+                # some paths through the body return, others complete: the else clause would also run after a "return"
+                raise CannotInline('try body that both returns and completes, followed by more statements')
+            if st.orelse:
+                o, fo = _eliminate_returns(list(st.orelse) + _copy_tree(rest), mk)
+            elif fb and rest:
+                o, fo = _eliminate_returns(_copy_tree(rest), mk)
+            else:
+                o, fo = [], fb
             hs, fh = [], False
             for h in st.handlers:
-                hb, f = _eliminate_returns(list(h.body), mk)
+                hb, f = _eliminate_returns(list(h.body) + _copy_tree(rest), mk)
                 fh = fh or f
                 hs.append(ast.copy_location(ast.ExceptHandler(type=h.type, name=h.name, body=hb or [ast.copy_location(ast.Pass(), h)]), h))
-            falls = (fo if st.orelse else fb) or fh
-            if falls and rest:
-                raise CannotInline('return inside a try block that is followed by more statements')
-            out.append(ast.copy_location(ast.Try(body=b, handlers=hs, orelse=o if st.orelse else [], finalbody=st.finalbody), st))
-            return out, falls
+            out.append(ast.copy_location(ast.Try(body=b or [ast.copy_location(ast.Pass(), st)], handlers=hs, orelse=o, finalbody=st.finalbody), st))
+            return out, fo or fh
         if isinstance(st, (ast.For, ast.While)) and not st.orelse:
             # search loop: `for ..: .. return V ..` + rest  ->  `for ..: .. RET = V; break ..` + `else: rest`
             body = _loop_returns(list(st.body), mk)
@@ -845,8 +855,8 @@ def normalise(trees, known=None, sources=None):
                     hit = True
                     break
         if hit:
-            from .model import _LowerIfExp
-            changed[rel] = ast.fix_missing_locations(_LowerIfExp().visit(ast.parse(sources[rel], filename=rel)))     # fresh tree without parent links
+            from .model import normalise_tree
+            changed[rel] = normalise_tree(ast.parse(sources[rel], filename=rel))     # fresh tree without parent links
     # callees must be taken from the copies (their own bodies get inlined calls first: bottom-up by recursion depth)
     for rel, t in changed.items():
         for qual, node, cls, _ in function_index(t):
@@ -938,3 +948,89 @@ def inline_known(fn_node, callee_nodes):
     ast.fix_missing_locations(g)
     reparent(g)
     return g, report
+
+
+
+# ------------------------------------------------------------------------ explicit lock()/try/finally unlock()  ->  with
+
+def _contextual_lock_classes(trees):
+    """classes whose __enter__ is `self.lock()` and whose __exit__ is `self.unlock()` (by simple name, inherited through the
+    class table): for them `L = C(..); L.lock(); try: B finally: L.unlock()` is `with C(..): B`"""
+    direct = set()
+    for t in trees.values():
+        for c in ast.walk(t):
+            if not isinstance(c, ast.ClassDef):
+                continue
+            m = {f.name: f for f in c.body if isinstance(f, ast.FunctionDef)}
+            if '__enter__' in m and '__exit__' in m:
+                ent = [s for s in m['__enter__'].body if not (isinstance(s, ast.Expr) and isinstance(s.value, ast.Constant))]
+                ext = [s for s in m['__exit__'].body if not (isinstance(s, ast.Expr) and isinstance(s.value, ast.Constant))]
+                ok_e = len(ent) in (1, 2) and isinstance(ent[0], ast.Expr) and ast.unparse(ent[0].value) == 'self.lock()' and \
+                    (len(ent) == 1 or (isinstance(ent[1], ast.Return) and ast.unparse(ent[1].value) == 'self'))
+                ok_x = len(ext) == 1 and isinstance(ext[0], ast.Expr) and ast.unparse(ext[0].value) == 'self.unlock()'
+                if ok_e and ok_x:
+                    direct.add(c.name)
+    classes = class_table(trees)
+    out = set(direct)
+    for name in classes:
+        if any(c in direct for c in _mro_names(classes, name)) and not any(
+                ('__enter__' in classes[c][0][1] or '__exit__' in classes[c][0][1]) and c not in direct for c in _mro_names(classes, name)):
+            out.add(name)
+    return out
+
+
+class _LockIdiom(ast.NodeTransformer):
+    def __init__(self, lockclasses):
+        self.lockclasses = lockclasses
+        self.count = 0
+
+    def _rewrite(self, stmts):
+        out, i = [], 0
+        while i < len(stmts):
+            a = stmts[i]
+            if i + 2 < len(stmts) and isinstance(a, ast.Assign) and len(a.targets) == 1 and isinstance(a.targets[0], ast.Name) and \
+                    isinstance(a.value, ast.Call) and (ast.unparse(a.value.func).split('.')[-1] in self.lockclasses):
+                name = a.targets[0].id
+                b, c = stmts[i + 1], stmts[i + 2]
+                if isinstance(b, ast.Expr) and ast.unparse(b.value) == '%s.lock()' % name and isinstance(c, ast.Try) and not c.handlers and \
+                        not c.orelse and len(c.finalbody) == 1 and isinstance(c.finalbody[0], ast.Expr) and \
+                        ast.unparse(c.finalbody[0].value) == '%s.unlock()' % name:
+                    used = any(isinstance(n, ast.Name) and n.id == name for s_ in c.body for n in ast.walk(s_)) or \
+                        any(isinstance(n, ast.Name) and n.id == name for s_ in stmts[i + 3:] for n in ast.walk(s_))
+                    item = ast.withitem(context_expr=a.value, optional_vars=ast.Name(id=name, ctx=ast.Store()) if used else None)
+                    out.append(ast.copy_location(ast.With(items=[item], body=c.body), a))
+                    self.count += 1
+                    i += 3
+                    continue
+            out.append(a)
+            i += 1
+        return out
+
+    def generic_visit(self, node):
+        super().generic_visit(node)
+        for fld in ('body', 'orelse', 'finalbody'):
+            b = getattr(node, fld, None)
+            if isinstance(b, list) and b and isinstance(b[0], ast.stmt):
+                setattr(node, fld, self._rewrite(b))
+        return node
+
+
+def lower_lock_idiom(trees, sources):
+    """-> {rel: new tree} for the modules that contain the explicit lock()/try/finally unlock() idiom on a context-manager lock"""
+    cand = [rel for rel, src in sources.items() if '.unlock()' in src and 'finally' in src and '.lock()' in src]
+    if not cand:
+        return {}
+    lockclasses = _contextual_lock_classes(trees)
+    if not lockclasses:
+        return {}
+    from .model import normalise_tree
+    changed = {}
+    for rel in cand:
+        t = normalise_tree(ast.parse(sources[rel], filename=rel))
+        tr = _LockIdiom(lockclasses)
+        t = tr.visit(t)
+        if tr.count:
+            ast.fix_missing_locations(t)
+            reparent(t)
+            changed[rel] = t
+    return changed
